@@ -61,6 +61,21 @@ def loop_bodies(fdef):
     return pre, body, names, post, loop
 
 
+def tracking_names(body, default):
+    """(best, best_loss) locals of a min-tracking search loop, recognised by their role: `if <loss> < <best_loss>: <best> = <candidate>; <best_loss> = <loss>`"""
+    for st in body:
+        for n in ast.walk(st):
+            if isinstance(n, ast.If) and isinstance(n.test, ast.Compare) and len(n.test.ops) == 1 and isinstance(n.test.ops[0], ast.Lt) \
+                    and isinstance(n.test.left, ast.Name) and isinstance(n.test.comparators[0], ast.Name):
+                loss, bl = n.test.left.id, n.test.comparators[0].id
+                best = None
+                for a in n.body:
+                    if isinstance(a, ast.Assign) and len(a.targets) == 1 and isinstance(a.targets[0], ast.Name):
+                        if a.targets[0].id != bl: best = a.targets[0].id
+                if best: return best, bl
+    return default
+
+
 def obligations(cx):
     src = cx.src
     # ------------------------------------------------------------------ (a) frame of fit(): the caller's measurements are never modified
@@ -103,6 +118,7 @@ def obligations(cx):
     # ------------------------------------------------------------------ (c) find_best_fit: min-tracking invariant of the search loop (generic iteration)
     fbf = cx.under_contract('find_best_fit')
     pre, body, names, post, loop = loop_bodies(fbf)
+    BEST, BLOSS = tracking_names(body, ('best_curve', 'best_loss'))
     nsym = var('n_pts', 'I')
     data = measurements(src, n=nsym)
     def fit_contract(ex, b):
@@ -129,8 +145,8 @@ def obligations(cx):
                 ex.block(pre, env)
                 ex.prefix = dict(env)
                 if havoc:
-                    env['best_curve'] = Obj('PervaporationFunction', dict(n=None, m=None, alpha=var('best.alpha'), a=Opaque('a'), b=Opaque('b')), tag=('best',))
-                    env['best_loss'] = bl
+                    env[BEST] = Obj('PervaporationFunction', dict(n=None, m=None, alpha=var('best.alpha'), a=Opaque('a'), b=Opaque('b')), tag=('best',))
+                    env[BLOSS] = bl
                 for nm_ in names: env[nm_] = var(nm_ + '_try', 'I')
                 ex.block(body, env)
                 return env
@@ -138,7 +154,7 @@ def obligations(cx):
             ps0 = cx.explore(lambda ex: (lambda env: (ex.block(pre, env), env)[1])(ex.bind(fbf, [], kw)), contracts=ctr2, pre=[nsym >= 1, var('n_user', 'I') >= 0, var('m_user', 'I') >= 0])
             for pi, r in enumerate(returns(ps0)):
                 e = r.value
-                cx.ob("%s.init%d" % (tag, pi), [], blit(e.get('best_curve') is None and e.get('best_loss') is INF), kind='paths', function='find_best_fit',
+                cx.ob("%s.init%d" % (tag, pi), [], blit(e.get(BEST) is None and e.get(BLOSS) is INF), kind='paths', function='find_best_fit',
                       statement="before the search: no candidate, best loss = +infinity")
                 if forced:
                     nt, mt = e.get('n_tries'), e.get('m_tries')
@@ -150,7 +166,7 @@ def obligations(cx):
             for pi, r in enumerate(returns(ps1)):
                 e = r.value
                 fc = getattr(r.ex, 'fit_calls', [])
-                cx.ob("%s.first-iteration%d.takes-the-candidate" % (tag, pi), [], blit(len(fc) == 1 and isinstance(e['best_curve'], Obj) and e['best_curve'].tag[0] == 'fit' and isinstance(e['best_loss'], T)), kind='paths',
+                cx.ob("%s.first-iteration%d.takes-the-candidate" % (tag, pi), [], blit(len(fc) == 1 and isinstance(e[BEST], Obj) and e[BEST].tag[0] == 'fit' and isinstance(e[BLOSS], T)), kind='paths',
                       function='find_best_fit', statement="the first candidate always replaces the empty best (loss < +infinity)")
             # generic iteration from an arbitrary state satisfying the invariant
             ps = cx.explore(lambda ex: run_iteration(ex, havoc=True), contracts=ctr2, pre=[nsym >= 1, var('n_user', 'I') >= 0, var('m_user', 'I') >= 0])
@@ -172,13 +188,13 @@ def obligations(cx):
                     want = power(app('F', app('mx', j), app('mt', j), *(flatten(var(names[0] + '_try', 'I')) + flatten(var(names[1] + '_try', 'I')))) - app('mp', j), 2)
                     cx.ob("%s.iteration%d.loss-summand" % (tag, pi), q.pc, band(eq(q.value, want), eq(seq.n, nsym)), function='find_best_fit',
                           statement="loss of a candidate = sum over the supplied data of (candidate(x,t) - p)^2")
-                nb = e['best_loss']; nc = e['best_curve']
+                nb = e[BLOSS]; nc = e[BEST]
                 took = isinstance(nc, Obj) and nc.tag[0] == 'fit'
                 cx.ob("%s.iteration%d.min-tracking" % (tag, pi), r.pc, band(eq(nb, loss), loss < bl) if took else band(eq(nb, bl), bnot(loss < bl)), function='find_best_fit',
                       statement="invariant preserved: the best loss is the minimum of the losses seen so far and the best curve attains it (strict '<': first minimiser kept)")
                 cx.ob("%s.iteration%d.frame" % (tag, pi), [], blit(not r.ex.ext_writes), kind='frame', function='find_best_fit', writes=str(r.ex.ext_writes[:2]))
             # exit: the function returns the tracked best curve
-            okp = len(post) == 1 and isinstance(post[0], ast.Return) and isinstance(post[0].value, ast.Name) and post[0].value.id == 'best_curve'
+            okp = len(post) == 1 and isinstance(post[0], ast.Return) and isinstance(post[0].value, ast.Name) and post[0].value.id == BEST
             cx.ob(tag + ".returns-the-tracked-best", [], blit(okp), kind='scan', function='find_best_fit')
     # lemma: min-tracking invariant  =>  SSE(result) <= SSE(every tried fit)
     Lr, Lk, Lb = var('L_result'), var('L_k'), var('L_best_before')
@@ -186,6 +202,7 @@ def obligations(cx):
     # ------------------------------------------------------------------ fit_vle: min-tracking over the optimisation methods
     fv = cx.under_contract('fit_vle')
     pre, body, names, post, loop = loop_bodies(fv)
+    VBEST, VERR = tracking_names(body, ('best_fit', 'error'))
     vdata = Obj('VLEPoints', dict(components=PList([W.component(src, '1'), W.component(src, '2')], owner='external'), data=Seq(var('n_vle', 'I'), lambda i: Opaque('vle point'), owner='external', tag=('vle',))), owner='external', tag='vle data')
     def obj_contract(ex, b):
         ex.obj_calls = getattr(ex, 'obj_calls', []) + [b]
@@ -201,7 +218,7 @@ def obligations(cx):
             ex.block(pre, env)
             ex.prefix = dict(env)
             if havoc:
-                env['best_fit'] = Seq(lift(5), lambda i: app('bf', lift(i)), tag=('best_fit',)); env['error'] = err
+                env[VBEST] = Seq(lift(5), lambda i: app('bf', lift(i)), tag=('best_fit',)); env[VERR] = err
             env[names[0]] = 'SomeMethod'
             ex.block(body, env)
             return env
@@ -210,7 +227,7 @@ def obligations(cx):
             e = r.value
             algs = e.get('algs')
             n_algs = len(algs.items) if isinstance(algs, PList) else len(algs) if isinstance(algs, (list, tuple)) else -1
-            cx.ob("%s.init%d" % (tag, pi), [], blit(n_algs == (9 if meth is None else 1) and is_num(e.get('error'))), kind='paths', function='fit_vle', found="algs=%s error=%s" % (n_algs, e.get('error')))
+            cx.ob("%s.init%d" % (tag, pi), [], blit(n_algs == (9 if meth is None else 1) and is_num(e.get(VERR))), kind='paths', function='fit_vle', found="algs=%s error=%s" % (n_algs, e.get(VERR)))
         ps = cx.explore(lambda ex: run_v(ex), contracts=ctr3)
         rs = returns(ps)
         cx.ob(tag + ".iteration.paths", [], blit(len(rs) >= 2), kind='paths', function='fit_vle')
@@ -221,11 +238,11 @@ def obligations(cx):
             cx.ob("%s.iteration%d.candidate" % (tag, pi), [], blit(ok), kind='paths', function='fit_vle', statement="each method's candidate is scored by the objective on the supplied data")
             if not ok: continue
             cur = app('vle.err', *flatten(('opt.x', 1)))
-            took = isinstance(e['best_fit'], Seq) and e['best_fit'].tag == ('opt.x', 1)
-            cx.ob("%s.iteration%d.min-tracking" % (tag, pi), r.pc, band(eq(lift(e['error']), cur), cur < err) if took else band(eq(lift(e['error']), err), bnot(cur < err)), function='fit_vle',
+            took = isinstance(e[VBEST], Seq) and e[VBEST].tag == ('opt.x', 1)
+            cx.ob("%s.iteration%d.min-tracking" % (tag, pi), r.pc, band(eq(lift(e[VERR]), cur), cur < err) if took else band(eq(lift(e[VERR]), err), bnot(cur < err)), function='fit_vle',
                   statement="the VLE fit keeps the parameters of the method with the smallest error seen so far")
             cx.ob("%s.iteration%d.frame" % (tag, pi), [], blit(not r.ex.ext_writes), kind='frame', function='fit_vle')
-        okp = len(post) == 1 and isinstance(post[0], ast.Return) and 'best_fit' in ast.unparse(post[0].value)
+        okp = len(post) == 1 and isinstance(post[0], ast.Return) and VBEST in ast.unparse(post[0].value)
         cx.ob(tag + ".returns-the-tracked-best", [], blit(okp), kind='scan', function='fit_vle')
     # the VLE objective itself: root-mean-square deviation of the UNIQUAC partial pressures from the measured ones on the supplied points
     cx.under_contract('uniquac_fitting.py:objective')
